@@ -123,7 +123,7 @@ type driver struct {
 	arrived chan *gate
 
 	jitter  atomic.Bool
-	serving sync.Map // gRPC path: check number -> channel closed when the handler serving it has returned
+	serving sync.Map             // gRPC path: check number -> channel closed when the handler serving it has returned
 	fracMs  int64                // milliseconds past the whole second d.now (tickms)
 	bySid   map[string]*checkRun // parallel mode: session id presented -> the check in flight that presented it
 	mu      sync.Mutex
